@@ -220,6 +220,9 @@ func (s *Sess) Delete(b, k string) Resp {
 	return r
 }
 func (s *Sess) DeleteVersion(b, k, vid string) Resp {
+	if vid == "" { // no such reference: a plain delete
+		return s.Delete(b, k)
+	}
 	r := do(s.h, Req{Method: "DELETE", Path: "/" + pathEscape(b) + "/" + pathEscape(k) + vq(vid)})
 	s.emitOp("delv", []string{hs(b), hs(k), hs(vid)}, obsT{r: r})
 	return r
